@@ -91,6 +91,9 @@ func (x *Value) CompareAndSwap(o, n any) bool { pt("atomic.CAS"); return x.v.Com
 
 type Pointer[T any] struct{ v atomic.Pointer[T] }
 
+// Peek reads without a scheduling point (harness observation only).
+func (x *Pointer[T]) Peek() *T { return x.v.Load() }
+
 func (x *Pointer[T]) Load() *T                    { pt("atomic.Load"); return x.v.Load() }
 func (x *Pointer[T]) Store(p *T)                  { pt("atomic.Store"); x.v.Store(p) }
 func (x *Pointer[T]) Swap(p *T) *T                { pt("atomic.Swap"); return x.v.Swap(p) }
